@@ -666,6 +666,18 @@ pub fn run(ctx: &Ctx) {
             check_json(&tree, &Json::Object(obj), true, l)
         });
     }
+    if ctx.tier == crate::runner::Tier::Thorough {
+        // every f32: the number that encodes to these four bytes decodes and re-encodes to the same four bytes
+        ctx.par_range("exhaustive-f32", 1u64 << 32, |i, l| {
+            let f = f32::from_bits(i as u32);
+            if !f.is_finite() {
+                return Ok(());
+            }
+            l.nontrivial_enum(1);
+            check_json(&Tree::F32, &json!(f as f64), false, l)
+        });
+        ctx.exhausted("all finite f32 values through the dynamic encoder -> decoder -> encoder");
+    }
     let n = ctx.tier.pick(20_000, 200_000);
     ctx.par_proptest(
         "deep-and-wide-schemas",
